@@ -13,8 +13,14 @@ PLAN = {
 
 def make_spec(task):
     tree, scheme, ivar, k, twin = task
-    return add_scheme_S(flatten(tree, scheme, ivar), eventless_twin=twin in (True, 'both'), counter=True,
+    spec = add_scheme_S(flatten(tree, scheme, ivar), eventless_twin=twin in (True, 'both'), counter=True,
                         internal_twin=twin in ('internal', 'both'))
+    if twin == 'prio':
+        # "a priority can be any integer": the same charts with every transition at priority 2 or 5 per source
+        # state (the relative order inside a state is what matters, the refusals must read the same)
+        for t in spec['transitions']:
+            t['priority'] = 5 if t['target'] is None else 2
+    return spec
 
 
 def work(task):
@@ -101,6 +107,8 @@ def run(tier, seed):
         r = repr(tree)
         if "'O'" in r and r.count("'C'") + r.count("'O'") >= 3:
             tasks.append((tree, 'asc', 0, 2 if tier == 'quick' else 3, 'moved'))
+    for tree in skeletons(2, 4, history=False, final=False):
+        tasks.append((tree, 'asc', 0, 2, 'prio'))
     for nmin, nmax, k, twin in PLAN[tier]:
         for tree in skeletons(nmin, nmax, history=False, final=False):
             for scheme in ('asc', 'desc'):
